@@ -1,7 +1,8 @@
 SPECIFICATION Spec
-CONSTANTS NRows = 5  MaxV = 3  Upw = 2  MinPts = 2  NDim = 2  MaskSpace = "position"
+CONSTANTS NRows = 5  MaxV = 3  Upw = 2  MinPts = 2  NDim = 2  MaskSpace = "position"  WeightSpace = "sliced"  Opts = {"none", "wlsq", "wlsqarr"}
 CHECK_DEADLOCK FALSE
 INVARIANT IntervalOwnData
 INVARIANT KeptExactly
 INVARIANT DepFitInputs
 INVARIANT OptionsPerDim
+INVARIANT IntervalOwnWeights
